@@ -3311,7 +3311,10 @@ impl Zeroconf {
                 let service_opt = self
                     .my_services
                     .iter()
-                    .find(|(k, _v)| dns_registry.resolve_name(k.as_str()) == query_name)
+                    .find(|(_k, v)| {
+                        // `name_changes` is keyed by the original (not lower-cased) name.
+                        dns_registry.resolve_name(v.get_fullname()).to_lowercase() == query_name
+                    })
                     .map(|(_, v)| v);
 
                 let Some(service) = service_opt else {
